@@ -6,6 +6,7 @@ import Tea.Render.Model
 import Tea.VT.Term
 import Tea.Render.Program
 import Tea.Render.Fps
+import Tea.Runtime.Pipeline
 
 open Tea Tea.Driver Tea.Input
 
@@ -169,6 +170,96 @@ def stepFPS (line : String) : String :=
   | some f => toString (Tea.Render.framerateNs f)
   | none => "bad-op"
 
+namespace PTrace
+open Tea.Runtime
+
+def dropS (s : String) (n : Nat) : String := String.ofList (s.toList.drop n)
+abbrev RMsg := Tea.Runtime.Msg
+
+def parseTok (t : String) : Option RMsg :=
+  if t == "q" then some .quit
+  else if t.startsWith "u" then
+    match (dropS t 1).splitOn "." with
+    | [a, b] => do some (.user (← a.toNat?) (← b.toNat?))
+    | _ => none
+  else if t.startsWith "r" then do some (.res (← (dropS t 1).toNat?))
+  else none
+
+def tokOf : RMsg → String
+  | .user s k => s!"u{s}.{k}"
+  | .res c => s!"r{c}"
+  | .quit => "q"
+  | .interrupt => "i"
+  | .batch _ => "b"
+  | .other _ => "o"
+
+def parseLabel (ws : List String) : Option Label :=
+  match ws with
+  | ["sendStart", i] => do some (.sendStart (← i.toNat?))
+  | ["process", i] => do some (.process (← i.toNat?))
+  | ["cmdRun", i] => do some (.cmdRun (← i.toNat?))
+  | ["cmdHandOver"] => some .cmdHandOver
+  | ["batchNext"] => some .batchNext
+  | ["batchDone"] => some .batchDone
+  | ["initHandOver"] => some .initHandOver
+  | _ => none
+
+/-- `key=value` pairs -/
+def parsePairs (ws : List String) : List (String × String) :=
+  ws.filterMap fun w => match w.splitOn "=" with
+    | [k, v] => some (k, v)
+    | _ => none
+
+def replayFrom (P : Prog Nat) : St Nat → Nat → List Label → Except String (St Nat)
+  | s, _, [] => .ok s
+  | s, k, l :: ls =>
+    match step P s l with
+    | some s' => replayFrom P s' (k + 1) ls
+    | none => .error s!"rejected at {k}: {repr l}"
+
+def run (line : String) : String :=
+  match line.splitOn " | " with
+  | [hdr, upd, cmds, labs] =>
+    match words hdr with
+    | ["senders", nsS, nmS, "init", initS] =>
+      match nsS.toNat?, nmS.toNat?, initS.toNat? with
+      | some ns, some nm, some initId =>
+        let updT := parsePairs ((words upd).drop 1)
+        let cmdT := parsePairs ((words cmds).drop 1)
+        let cmdResult (id : Nat) : Option RMsg :=
+          match cmdT.lookup (toString id) with
+          | some v =>
+            if v == "r" then some (.res id)
+            else if v == "n" then none
+            else if v.startsWith "b" then
+              some (.batch (((dropS v 1).splitOn ",").filterMap (fun p => p.toNat?.map (fun n => if n == 0 then none else some n))))
+            else none
+          | none => none
+        let update (m : Nat) (x : RMsg) : Nat × Option Nat :=
+          (m + 1, match updT.lookup (tokOf x) with
+            | some v => (v.toNat?.bind fun n => if n == 0 then none else some n)
+            | none => none)
+        let P : Prog Nat := { init := 0, initCmd := if initId == 0 then none else some initId,
+                              update := update, cmdResult := cmdResult, filter := none }
+        let senders : List Sender :=
+          (List.range ns).map (fun s => { script := (List.range nm).map (fun k => Tea.Runtime.Msg.user s k) }) ++ [{ script := [.quit] }]
+        let labels := ((dropS labs 7).splitOn ";").filterMap (fun l => parseLabel (words l))
+        let nlab := ((dropS labs 7).splitOn ";").filter (· ≠ "") |>.length
+        if labels.length ≠ nlab then "bad-label" else
+        match replayFrom P (Tea.Runtime.init P senders) 0 labels with
+        | .error e => e
+        | .ok s =>
+          let ex := match s.el with
+            | .exited .quit => "quit"
+            | .exited .interrupt => "interrupt"
+            | .exited .ctx => "ctx"
+            | _ => "running"
+          s!"accepted upd=[{" ".intercalate (s.updLog.map tokOf)}] model={s.model} exit={ex}"
+      | _, _, _ => "bad-op"
+    | _ => "bad-op"
+  | _ => "bad-op"
+end PTrace
+
 partial def loop (h : IO.FS.Stream) (out : IO.FS.Stream) (f : String → String) : IO Unit := do
   let line ← h.getLine
   if line.isEmpty then return ()
@@ -187,4 +278,5 @@ def main (args : List String) : IO UInt32 := do
   | ["vt"] => loop stdin stdout stepVT; return 0
   | ["glue"] => loop stdin stdout stepGlue; return 0
   | ["fps"] => loop stdin stdout stepFPS; return 0
+  | ["ptrace"] => loop stdin stdout PTrace.run; return 0
   | _ => IO.eprintln "usage: driver <stream>"; return 2
